@@ -61,7 +61,9 @@ class Pool:
                     pending = []
                     break
                 t = pending.pop(0)
-                p = subprocess.Popen(t['cmd'], env=t['env'], cwd=ROOT, stdout=subprocess.DEVNULL, stderr=subprocess.PIPE)
+                errf = open(t['out'] + '.stderr', 'wb')
+                p = subprocess.Popen(t['cmd'], env=t['env'], cwd=ROOT, stdout=subprocess.DEVNULL, stderr=errf)
+                errf.close()
                 self.running.append((t, p, time.time()))
             still = []
             for t, p, st in self.running:
@@ -74,7 +76,12 @@ class Pool:
                     else:
                         still.append((t, p, st))
                     continue
-                err = p.stderr.read().decode('utf-8', 'replace')[-3000:] if p.stderr else ''
+                try:
+                    with open(t['out'] + '.stderr', 'rb') as ef:
+                        ef.seek(max(0, os.path.getsize(t['out'] + '.stderr') - 3000))
+                        err = ef.read().decode('utf-8', 'replace')
+                except OSError:
+                    err = ''
                 try:
                     with open(t['out']) as f:
                         r = json.load(f)
